@@ -884,6 +884,11 @@ def ndim(a):
 
 def astype(a, t):
     A = _plain(a)
+    tn = getattr(t, "__name__", t)
+    if tn in ("sym_float", "float", "float64"):
+        t = float
+    elif tn in ("sym_int", "int", "int64"):
+        t = int
     if t in (float, _np.float64, "float", "float64", object):
         out = _np.empty(A.shape, dtype=object)
         for i in _np.ndindex(A.shape):
